@@ -215,7 +215,12 @@ package scanner
 // C05, per-state component: every state treats the two line-end bytes alike and the two blank bytes alike. Two runs of the
 // same state function from the same state, differing only in the byte under the cursor, end in the same scanner state and
 // agree on error / no error (calls are abstracted as deterministic functions of the fields listed here).
+// After '#' (and after '##') every byte other than '#' is handled exactly as stateSingleComment would handle it: the two
+// states are stateSingleComment entered through another door (this includes the line end, which must be handed on to the
+// state saved by startComment).
 //@ equiv stepFunc(s, c) [C05] : pairs 10/13, 32/9 : byteat data,file.content curIndex : s.step, s.stepStack, s.finds, s.stack, s.curIndex, s.open, s.openBegin, s.lastEnd, s.dataSize, s.lastDirectiveParameters
+//@ equiv like stepFunc stateCommentStarted stateSingleComment [C05] : c != 35
+//@ equiv like stepFunc stateCommentDouble stateSingleComment [C05] : c != 35
 
 // C05, line comments: after '#', any byte other than '#', a line end or the end of file puts the scanner into
 // stateSingleComment, which ignores every byte up to the line end; nothing else of the scanner changes, so the state
